@@ -826,7 +826,7 @@ class Pattern(Task):
             pts.add((Fr(rng.randint(0, 64), 4), rng.randint(55, 75)))
         return sorted(pts)
 
-    def _patterns(self, rng, npat):
+    def _patterns(self, rng, npat, dup=False):
         pats = []
         for _ in range(npat):
             base = self._occ(rng, rng.randint(1, 5))
@@ -836,20 +836,22 @@ class Pattern(Task):
                 occ = [(t + dt, p) for t, p in base]
                 if rng.random() < 0.3 and len(occ) > 1:
                     occ = occ[:-1]
-                if rng.random() < 0.12:
-                    occ = occ + [rng.choice(occ)]      # the same (onset, pitch) listed twice
+                if dup and rng.random() < 0.12:
+                    # the same (onset, pitch) listed twice: the occurrence is no longer a set of notes (used for the
+                    # range claim only; not a non-degenerate annotation for the perfect-estimate claim)
+                    occ = occ + [rng.choice(occ)]
                 occs.append(occ)
             pats.append(occs)
         return pats
 
     def gen(self, rng):
-        ref = self._patterns(rng, rng.choice([1, 2, 3]))
+        ref = self._patterns(rng, rng.choice([1, 2, 3]), dup=True)
         if rng.random() < 0.5:
             est = [[list(o) for o in p if rng.random() < 0.8] or [list(p[0])] for p in ref if rng.random() < 0.8]
             est = est or self._patterns(rng, 1)
-            est += self._patterns(rng, rng.choice([0, 1]))
+            est += self._patterns(rng, rng.choice([0, 1]), dup=True)
         else:
-            est = self._patterns(rng, rng.choice([1, 2, 3]))
+            est = self._patterns(rng, rng.choice([1, 2, 3]), dup=True)
         return {"ref": self._ser(ref), "est": self._ser(est)}
 
     def gen_self(self, rng):
